@@ -35,6 +35,13 @@ static const scen_t scens[] = {
     { V_TLS13, KX_13_PSK, 0, 0, 0, 0, 0, "tls13-psk-pipelined", 1 },
     { V_TLS12, KX_PSK, 0, 0, 1, 0, 0, "tls12-psk-resumed-pipelined", 1 },
     { V_TLS12, KX_ECDHE_RSA, 0, 0, 0, 0, 1, "tls12-ecdhe-tickets-pipelined", 1 },
+    /* a transport that blocks: each side writes 1000 bytes, the transport takes what the schedule lets it take (one send
+       call), and the application writes the next 1000 bytes while the rest is still pending in the output buffer (the
+       free space behind pending bytes decides whether the buffer grows) */
+    { V_TLS13, KX_13_PSK, 0, 0, 0, 0, 0, "tls13-psk-write-behind-pending-output", 2 },
+    { V_TLS12, KX_PSK, 0, 0, 0, 0, 0, "tls12-psk-write-behind-pending-output", 2 },
+    { V_TLS11, KX_PSK, 0, 0, 0, 0, 0, "tls11-psk-write-behind-pending-output", 2 },
+    { V_TLS12, KX_RSA, TLS_RSA_WITH_AES_128_GCM_SHA256, 0, 0, 0, 0, "tls12-rsa-gcm-write-behind-pending-output", 2 },
 };
 #define NSCEN ((int) (sizeof(scens) / sizeof(scens[0])))
 
@@ -72,6 +79,7 @@ static int app_len(int k)
     return thorough ? t[k] : q[k];
 }
 
+static int collect_once;
 /* drain side d's output honouring partial-send cuts; append to stream */
 static void collect_side(world_t *w, run_t *R, int d, const sched_t *sc)
 {
@@ -111,6 +119,10 @@ static void collect_side(world_t *w, run_t *R, int d, const sched_t *sc)
         else if (rc < 0)
         {
             world_tracef(w, "%d:sent-err %d\n", d, rc);
+        }
+        if (collect_once)
+        {
+            break;   /* the transport took this much and now blocks */
         }
     }
 }
@@ -240,9 +252,40 @@ static void run_scenario(int si, const sched_t *sc, obs_t *o)
         buf_clear(&R.out[0]); buf_clear(&R.out[1]);
         R.fed[0] = R.fed[1] = 0;
     }
-    pipeline_on = S->pipeline;
+    pipeline_on = S->pipeline == 1;
     app_written[0] = app_written[1] = 0;
-    if (S->pipeline)
+    if (S->pipeline == 2)
+    {
+        uint64_t e0 = env_entropy_draws, b0 = env_entropy_bytes;
+        quiesce(&w, &R, sc);
+        if (world_is_complete(&w, 0) && world_is_complete(&w, 1))
+        {
+            for (d = 0; d < 2; d++)
+            {
+                int i;
+                for (k = 0; k < 2; k++)
+                {
+                    for (i = 0; i < 1000; i++)
+                    {
+                        msg[i] = (unsigned char) (k * 17 + d * 91 + i * 3);
+                    }
+                    world_app_send(&w, d, msg, 1000);
+                    if (k == 0)
+                    {
+                        collect_once = 1;
+                        collect_side(&w, &R, d, sc);
+                        collect_once = 0;
+                    }
+                }
+                quiesce(&w, &R, sc);
+            }
+            world_close(&w, 0);
+            quiesce(&w, &R, sc);
+        }
+        o->entropy_draws = env_entropy_draws - e0;
+        o->entropy_bytes = env_entropy_bytes - b0;
+    }
+    else if (S->pipeline)
     {
         uint64_t e0 = env_entropy_draws, b0 = env_entropy_bytes;
         quiesce(&w, &R, sc);
@@ -374,6 +417,15 @@ static void build_cases(int si)
             for (k = 1; k < o->slen[d]; k++)
             {
                 int cheap = scens[si].kx == KX_PSK || scens[si].kx == KX_13_PSK;
+                if (scens[si].pipeline == 2 && mode == M_CUTS && !near_boundary(o, d, k, 8) && (k % 64) != 0)
+                {
+                    continue;   /* this scenario is about the SEND side: every partial-send position, a grid of receive cuts */
+                }
+                if (scens[si].pipeline == 2 && mode == M_PSEND && k > o->slen[d] - 2200)
+                {
+                    add_case(si, mode, d, 1, k, 0);   /* every position inside the two application records and the closure */
+                    continue;
+                }
                 if (thorough || near_boundary(o, d, k, 24) || (cheap ? (k < 1200 || (k % 256) == 0) : ((k < 2600 && (k % 16) == 0) || (k % 512) == 0)))
                 {
                     add_case(si, mode, d, 1, k, 0);
